@@ -8,7 +8,7 @@ for d in seeded/${1:-}*/; do
   n=$(basename $d)
   [ -f $d/meta.json ] || continue
   checks=$(python3 -c "import json;m=json.load(open('$d/meta.json'));print(' '.join(m['caught_by']) if '${ALL:-}' else m['caught_by'][0])")
-  for pf in $d/patch*.diff; do
+  for pf in /verif/$d/patch*.diff; do
     git -C /repo apply $pf || { echo "$n: $(basename $pf) does not apply"; fail=1; continue; }
     for c in $checks; do
       out=$(./check $c --tier quick 2>&1)
